@@ -828,6 +828,33 @@ func (e *Env) callSpec(t ECall) Val {
 			facts = append(facts, fmt.Sprintf("(= (select (select %s (arr %s)) (+ (off %s) %d)) %d)", c, v.T, v.T, i, lit.V[i]))
 		}
 		return mathBool(and(facts...))
+	case "once_done": // once_done(p.f.g): the sync.Once at that field path of object p has fired
+		var path []string
+		x := t.Args[0]
+		for {
+			sel, ok := x.(ESel)
+			if !ok {
+				break
+			}
+			xv, ok2 := e.tryEval(sel.X)
+			if !ok2 {
+				unsup("spec: once_done: cannot evaluate %s", sel.X)
+			}
+			ut := types.Unalias(xv.Typ)
+			if pt, isPtr := ut.Underlying().(*types.Pointer); isPtr {
+				_, name, _ := structOf(pt.Elem())
+				path = append([]string{name + "." + sel.F}, path...)
+				c := vc.comp(e.st, "Once.done "+strings.Join(path, "/"), "(Array Int Bool)")
+				return mathBool(fmt.Sprintf("(select %s %s)", c, xv.T))
+			}
+			_, name, isStruct := structOf(ut)
+			if !isStruct {
+				unsup("spec: once_done: %s is not a struct", sel.X)
+			}
+			path = append([]string{name + "." + sel.F}, path...)
+			x = sel.X
+		}
+		unsup("spec: once_done needs a field path rooted at a pointer")
 	case "store": // store(array, index, value) on SMT arrays
 		a, i, v := e.eval(t.Args[0]), e.eval(t.Args[1]), e.eval(t.Args[2])
 		return Val{T: fmt.Sprintf("(store %s %s %s)", a.T, i.T, v.T), Sort: a.sort(vc)}
@@ -975,6 +1002,35 @@ func (e *Env) modTarget(x Expr, out map[string][]string) {
 		case "anything":
 			out["*"] = append(out["*"], "true")
 			return
+		case "once_done":
+			// the ghost flag of a sync.Once at a field path
+			var path []string
+			x := t.Args[0]
+			for {
+				sel, ok := x.(ESel)
+				if !ok {
+					break
+				}
+				xv, ok2 := e.tryEval(sel.X)
+				if !ok2 {
+					break
+				}
+				ut := types.Unalias(xv.Typ)
+				if pt, isPtr := ut.Underlying().(*types.Pointer); isPtr {
+					_, name, _ := structOf(pt.Elem())
+					path = append([]string{name + "." + sel.F}, path...)
+					k := "Once.done " + strings.Join(path, "/")
+					vc.comp(e.st, k, "(Array Int Bool)")
+					out[k] = append(out[k], xv.T)
+					return
+				}
+				_, name, isStruct := structOf(ut)
+				if !isStruct {
+					break
+				}
+				path = append([]string{name + "." + sel.F}, path...)
+				x = sel.X
+			}
 		}
 	}
 	_ = vc
